@@ -115,6 +115,19 @@ def _rx_item(op, av, ic, dotall):
         his = 'inf' if hi is sre_c.MAXREPEAT else str(hi)
         g = 1 if op is sre_c.MAX_REPEAT else 0
         return f'(rep {_rx_seq(list(sub), ic, dotall)} {lo} {his} {g})'
+    if op is sre_c.AT:
+        if av is sre_c.AT_END:
+            return '(atend 0)'
+        if av is sre_c.AT_END_STRING:
+            return '(atend 1)'
+        if av in (sre_c.AT_BEGINNING, sre_c.AT_BEGINNING_STRING):
+            return 'atstart'
+        raise Unsupported(f'regex anchor {av}')
+    if op in (sre_c.ASSERT, sre_c.ASSERT_NOT):
+        direction, sub = av
+        if direction != 1:
+            raise Unsupported('regex lookbehind')
+        return f'(look {1 if op is sre_c.ASSERT_NOT else 0} {_rx_seq(list(sub), ic, dotall)})'
     raise Unsupported(f'regex op {op}')
 
 
